@@ -359,6 +359,23 @@ def u_axes(ctx, shard, nshards):
                     ctx.monitor("axes_flatten_bijection_checked")
                     if len(ax) >= 2 and tuple(ax) != tuple(range(len(ax))):
                         ctx.monitor("axes_flatten_needed_a_real_transpose")
+                    # axes that were not selected keep their meaning: slot [r, i, j, ...] holds the sample whose
+                    # coordinates along the unselected axes are (i, j, ...), and one r = one coordinate tuple
+                    # along the selected axes
+                    rest_axes = [a for a in range(ndim) if a not in ax]
+                    if rest_axes:
+                        co = np.unravel_index(ref, shape)
+                        good = True
+                        for pos, a in enumerate(rest_axes):
+                            shp = [1] * ref.ndim
+                            shp[1 + pos] = shape[a]
+                            good &= np.array_equal(co[a], np.broadcast_to(np.arange(shape[a]).reshape(shp), ref.shape))
+                        for a in ax:
+                            good &= bool(np.all(co[a] == co[a][(slice(None),) + (0,) * len(rest_axes)].reshape(
+                                (-1,) + (1,) * len(rest_axes))))
+                        ctx.monitor("axes_partial_flatten_coordinates_checked")
+                        if not good:
+                            ctx.violation("flatten-scrambles-unflattened-axes", {**detail, "got_ids": ref})
                 if tuple(flat.shape) != (lead, *rest):
                     ctx.violation("flatten-shape", {**detail, "got": flat.shape, "want": [lead, *rest]})
             if B <= lead:
@@ -454,6 +471,7 @@ def u_axes(ctx, shard, nshards):
         ctx.require("axes_flatten_bijection_checked", 20)
         ctx.require("axes_flatten_needed_a_real_transpose", 5)
         ctx.require("axes_batches_partition_checked", 20)
+        ctx.require("axes_partial_flatten_coordinates_checked", 5)
         return
     # under jit as well (static batch_axes)
     for shape, axes in (((3, 4), (1, 0)), ((2, 3, 4), (2, 0, 1)), ((4, 3), None)):
@@ -476,6 +494,7 @@ def u_axes(ctx, shard, nshards):
     ctx.require("axes_flatten_bijection_checked", 20)
     ctx.require("axes_flatten_needed_a_real_transpose", 5)
     ctx.require("axes_batches_partition_checked", 20)
+    ctx.require("axes_partial_flatten_coordinates_checked", 5)
     ctx.require("axes_jit_cases", 3)
 
 
@@ -918,9 +937,10 @@ def u_eager(ctx, shard, nshards):
         # (2) the whole train under disable_jit: every call concrete
         cases = []
         for i in range(ctx.n(2, 5) * nshards):
-            E, S = int(rng.integers(1, 4)), int(rng.integers(2, 6))
+            # N >= 10 so that "two epochs with the identical index matrix" is judgeable (N!/r! >> 1e6)
+            E, S = int(rng.integers(2, 4)), int(rng.integers(5, 7))
             N = E * S
-            NB = int(rng.integers(2, min(N, 4) + 1))
+            NB = int(rng.integers(2, 4))
             EP = int(rng.integers(2, 4))
             cases.append((i, E, S, NB, EP, ["scalar", "plain"][i % 2] if i % 5 else "rich"))
         for (i, E, S, NB, EP, sname) in [c for k, c in enumerate(cases) if k % nshards == shard]:
